@@ -788,6 +788,7 @@ namespace riddle
                     error("expected ';'..");
                 return new_assignment_statement(is, i, e);
             }
+            case LPAREN_ID: // an expression (starting with a function call)..
             case PLUS_ID: // an expression..
             case MINUS_ID:
             case STAR_ID:
